@@ -149,6 +149,13 @@ impl<A: Float> CostFunction for TweedieProblem<'_, A> {
         let (ypred, _, offset) = self.ypred(p);
 
         let dev = self.dist.deviance(self.y, ypred.view())?;
+        if !dev.is_finite() {
+            // a mean outside the support of the distribution (e.g. identity link with a
+            // non-positive linear predictor): stop instead of feeding NaN to the line search
+            return Err(argmin::core::Error::msg(
+                "deviance is not finite: the linear predictor left the domain of the distribution",
+            ));
+        }
 
         let pscaled = p
             .slice(s![offset..])
